@@ -204,11 +204,13 @@ impl Drop for UL {
 pub fn unmanaged_race(prop: &'static str, seed: u64, close: bool) -> RaceOut {
     use deadpool::unmanaged::{Pool as UPool, PoolError as UErr};
     let mut rng = Rng::derive(seed, 0x7acf, close as u64);
-    let threads = rng.range(3, 24) as usize;
+    // half of the rounds are "return-heavy": many threads doing nothing but get + return on a full pool
+    let dense = rng.chance(1, 2);
+    let threads = if dense { rng.range(16, 64) as usize } else { rng.range(3, 24) as usize };
     let iters = rng.range(200, 1500) as usize;
     let max = rng.range(1, 8) as usize;
-    let prefill = rng.usize_below(max + 1);
-    let delay = rng.below(4000);
+    let prefill = if dense { max } else { rng.usize_below(max + 1) };
+    let delay = rng.below(if dense { 60_000 } else { 4000 });
     let cnt = Arc::new(UCnt { dropped: AtomicUsize::new(0) });
     let pool: UPool<UL> = UPool::new(max);
     let made = Arc::new(AtomicUsize::new(0));
@@ -228,7 +230,7 @@ pub fn unmanaged_race(prop: &'static str, seed: u64, close: bool) -> RaceOut {
             let mut keep: Vec<UL> = Vec::new();
             for i in 0..iters {
                 let r = std::panic::catch_unwind(std::panic::AssertUnwindSafe(|| -> Result<(), String> {
-                    match (i + t) % 7 {
+                    match if dense { 0 } else { (i + t) % 7 } {
                         0 | 1 | 2 | 3 => match pool.try_get() {
                             Ok(o) => drop(o),
                             Err(UErr::Timeout) | Err(UErr::Closed) => {}
